@@ -373,7 +373,7 @@ def side_case(seed, quick=True):
             return None, desc
         if which in ('cantor', 'multisponge', 'vicsek'):
             dim = rng.randint(1, 3) if which == 'cantor' else rng.randint(2, 4)
-            level = rng.randint(1, 3 if dim <= 2 else 2)
+            level = rng.randint(1, {1: 10, 2: 7, 3: 4, 4: 3}[dim])       # everything that fits in memory (<= 5e6 entries)
             desc.update(dimension=dim, level=level)
             gen = np.zeros([3] * dim, dtype=int)
             for idx in itertools.product(range(3), repeat=dim):
@@ -389,7 +389,8 @@ def side_case(seed, quick=True):
             msg = kron_power_entry_check(np.asarray(fr), gen, level, rng)
             return (('%s(%d, %d): ' % (which, dim, level) + msg) if msg else None), desc
         if which == 'rgb':
-            n, level = rng.randint(1, 3), rng.randint(1, 3)
+            n = rng.randint(1, 3)
+            level = rng.randint(1, {1: 6, 2: 6, 3: 5}[n])
             ms = [np.array([[float(rng.randint(0, 2)) for _ in range(n)] for _ in range(n)]) for _ in range(3)]
             snap = [m.copy() for m in ms]
             desc.update(n=n, level=level)
